@@ -1,4 +1,31 @@
 # included by gen_manifest.py: additional checks and the not-applicable list
+check("C02", "exploration",
+      "Bounded liveness by seeded search plus an enumerated fault prefix: for drawn configurations of two raw cores ALL 4^K fate assignments of the first K datagrams (K=4 quick, 6 thorough) are run, and sampled runs (raw cores and full sessions) suffer seeded faults/outages up to a seeded instant; after the last fault everything written must be read and both backlogs be zero within an analytic budget derived from the retransmission and probe timers. The fate prefix is enumerated, the rest of the space (configurations, later faults, schedules) is sampled - hence exploration.",
+      TB + " Liveness is judged only after the last fault with readers that keep reading; the budget is an over-approximation, not a tuned constant.",
+      "deterministic simulation with fault injection: enumerated fate prefix + seeded outage/heal search, bounded-liveness oracle with analytic budget", "DESIGN.md 8/C02")
+check("C04", "exploration",
+      "After every harness event (API call or processed datagram) of seeded simulated runs the oracle compares queue occupancies (hook H1) and the wnd/sn fields of every emitted segment (independent decoder) with the windows the harness configured: occupancy, truthful advertised window, outstanding <= send window, new sn only within min(send window, last delivered window, congestion window), nothing new after a timeout loss until the oldest segment is acknowledged. Includes a scripted adversary that ignores the window and forges una/sn/wnd.",
+      TB + " The congestion window is read through hook H1 (not visible on the wire). One recorded finding (known_findings.txt).",
+      "deterministic simulation with fault injection: per-step window-discipline invariants over seeded cooperative and forging-peer traffic", "DESIGN.md 8/C04")
+check("C05", "exploration",
+      "Seeded datagram-content fault injection inside the simulation: noise, truncations and structurally valid segments with every header field forged are fed into live raw cores (and arrive at sessions in the generic fault runs); any library panic on any goroutine (worker journal attributes process deaths to their run), occupancy beyond the C04 limits or pooled buffers held beyond the windows is a violation.",
+      TB + " As strong as the mutation grammar; not coverage-guided fuzzing.",
+      "deterministic simulation with fault injection: seeded forged/mutated datagrams interleaved with live traffic, survival and bounded-holdings oracles", "DESIGN.md 8/C05")
+check("C09", "exploration",
+      "Every datagram of every seeded simulated run (all ciphers, FEC ratios, MTUs, write patterns, faults, retransmissions, probes, parity, post-Close flushes) is decoded by an independent decoder written from the README: framing must parse exactly, CRC/tag verify, FEC ids/types/size fields agree, parity equal the Reed-Solomon code recomputed by the harness, nonces and datagrams never repeat, and the byte stream reassembled from the wire alone must equal what was written.",
+      TB, "deterministic simulation with fault injection: independent wire decoder + wire-only stream reassembly over all simulated histories", "DESIGN.md 8/C09")
+check("C10", "exploration",
+      "Seeded search over MTU values (any int), times (before and during traffic, growing and shrinking, data queued and in flight), overhead combinations and OOB sizes; every datagram handed to the simulated PacketConn and every size handed to a raw core's output callback is measured against the MTU in force; a refused value must leave the previous MTU in force; library panics (including worker-process deaths attributed through the journal) are violations.",
+      TB + " One recorded finding (known_findings.txt).",
+      "deterministic simulation with fault injection: seeded SetMtu schedules against live traffic, size oracle on every emitted datagram, crash attribution", "DESIGN.md 8/C10")
+check("C15", "exploration",
+      "Every seeded simulated run ends with closing sessions, listener and transports in a seeded order (stratum 'close': at a seeded instant in mid-transfer, with calls blocked), a grace period, one more hour of virtual time, and a census of the synctest bubble's goroutines and of scheduled update callbacks; every pooled buffer of every run passes through a sanitizer (ownership map, poison, FIFO quarantine) installed through hook H4.",
+      TB + " A buffer never recycled is not reported. Read-after-recycle is seen only when poison reaches the wire decoder or a reader.",
+      "deterministic simulation with fault injection: seeded Close schedules, goroutine/callback census at bubble end, buffer-pool sanitizer", "DESIGN.md 8/C15")
+check("C18", "exploration",
+      "Clean-path half: seeded FIFO constant-delay runs (raw cores under both drivers, and sessions) that satisfy the stated preconditions; every data sn must appear exactly once on the wire and the retransmission counters stay 0. Bound half: the RTO is read after every step of every run of every stratum, including an adversary acknowledging with forged, wrapped and delayed timestamps, and must lie in [30|100, 60000].",
+      TB, "deterministic simulation with fault injection: precondition-satisfying clean-path search with exactly-once wire oracle; RTO-bound invariant under forged ack timing", "DESIGN.md 8/C18")
+
 NOTYET = "check not built yet in this session (work in progress; see DESIGN.md section 8 for the design)"
 for p in props:
     if p["id"] not in CHECKS:
